@@ -6,7 +6,7 @@ THEOREM_NOTE = ("Props/C10.lean: a waiting call ends released only after a signa
                 "when its level was stopped; tickets are created unmarked; one dispatch marks every outstanding waiter of the class; a marked ticket returns at the next check "
                 "without taking another signal; the non-waiting form takes only the first priority it met, never blocks, and leaves the queue unchanged when the head differs")
 ASSUMPTIONS = ASSUME_SESSION
-RULE = ("loop-mode programs with waits nested in handlers (wait inside wait, non-waiting inside waiting and vice versa), several simultaneous waiters on one class, the awaited "
+RULE = ("[thorough tier adds the small-scope exhaustive enumeration of harness/gen/exhaustive.py: every loop program with a <= 2-action and a <= 1-action handler over a 10-action alphabet, 3 663 programs] loop-mode programs with waits nested in handlers (wait inside wait, non-waiting inside waiting and vice versa), several simultaneous waiters on one class, the awaited "
         "signal dispatched by an inner call; generic loop/app sessions; oracle: between entry and normal return of process_signals(return_after=C) a handler of class C ran or "
         "the level was stopped; the non-waiting form dispatches one priority only and never blocks; non-trivial = a waiting call that returned")
 
@@ -33,6 +33,9 @@ def generate(rnd, tier):
     n = 500 if tier == "quick" else 6000
     sid = SidCounter()
     cases = [gen_c10(rnd, sid) for _ in range(n)] + [gen_case(rnd, "loop", sid) for _ in range(n // 2)] + [gen_case(rnd, "app", sid) for _ in range(n // 4)]
+    if tier == "thorough":
+        from harness.gen.exhaustive import loop_programs
+        cases += list(loop_programs(sid))          # small-scope exhaustive: 3 663 programs
     return [with_cc(c) for c in cases]
 
 
@@ -71,7 +74,8 @@ def monitor(case, obs):
                 if c["cls"] is not None and x.hcls.get(ev[1]) == c["cls"]: c["hit"] = True
             if open_calls:
                 c = open_calls[-1]
-                if c["cls"] is None and not c["nested"] and c["depth_h"] == 0 and ev[2] in sid_prio: c["prios"].add(sid_prio[ev[2]])
+                # (a screen drawn by the batch may page its output: the framework's own blocking wait inside is not visible to the oracle - programs with screens are left out)
+                if c["cls"] is None and not c["nested"] and c["depth_h"] == 0 and ev[2] in sid_prio and not case.get("screens"): c["prios"].add(sid_prio[ev[2]])
                 c["depth_h"] += 1
         elif ev[0] == "h<":
             if open_calls: open_calls[-1]["depth_h"] = max(0, open_calls[-1]["depth_h"] - 1)
@@ -86,7 +90,7 @@ def monitor(case, obs):
             else:
                 if len(c["prios"]) > 1:
                     return "the non-waiting process_signals() dispatched signals of several priorities: %r" % sorted(c["prios"])
-    if obs["outcome"][0] == "blocked" and open_calls and open_calls[-1]["cls"] is None and not open_calls[-1]["nested"]:
+    if obs["outcome"][0] == "blocked" and open_calls and open_calls[-1]["cls"] is None and not open_calls[-1]["nested"] and not case.get("screens"):
         return "the non-waiting process_signals() blocked on an empty queue"
     return None
 
